@@ -97,11 +97,12 @@ def run_check(ctx):
         recs += sorted(got)
     recs = [json.loads(r) for r in sorted(set(recs))]
     cases = list(enumerate(recs))
-    backend = "-c"
     batches = []
     for mv in ("published", "public"):
         sel = [(i, r) for i, r in cases if r["lib"]["minvis"] == mv]
         for k in range(0, len(sel), BATCH):
+            # quick: handle-style C wrappers; thorough: every second batch through the Python-native back-end
+            backend = "-python-native" if ctx.tier != "quick" and len(batches) % 2 else "-c"
             batches.append((ctx.tmp, len(batches), mv, backend, sel[k:k + BATCH]))
     n_ent = 0
     distinct = set()
